@@ -51,6 +51,27 @@ def sym_names(t, out, seen=None):
                 sym_names(a, out, seen)
 
 
+def canon_symbols(byte_bits):
+    """names of the input symbols the given bit-level normal forms depend on (through position-wise functions)"""
+    import bitform
+    seen, out = set(), set()
+    stack = [a for bits in byte_bits for b in bits for a in b if a]
+    while stack:
+        a = stack.pop()
+        if a in seen:
+            continue
+        seen.add(a)
+        d = bitform._atom_of[a]
+        if d[0] == 'pw':
+            for s_ in d[3]:
+                stack.extend(x for x in s_ if x and x not in seen)
+        elif d[0][0] == 's':
+            out.add(d[0][1])
+        else:
+            sym_names(d[0], out)
+    return out
+
+
 def soft_rules(chk, cfgname, m, mod):
     """rules M, I, Ps for the software hazmat module `mod` (bit-level engine)"""
     import c01, bitform
@@ -167,6 +188,25 @@ def soft_rules(chk, cfgname, m, mod):
                     continue
                 sb = flatten(I, st2.mem[a2[0].obj], bty)
                 ob = flatten(I, lout[i], bty)
+                # K on the canonical form: the symbols the output bits really depend on
+                keyK = '%s::%s|K|lane%d' % (base, par_n, i)
+                if ob is None or any(y.term is None for y in ob):
+                    chk.violation('K-key-lane', keyK, '%s: output lane %d has no term' % (par_n, i))
+                else:
+                    used = canon_symbols([bitform.bitform(bitform.recanon(y.term)) for y in ob])
+                    ks = []
+                    for kv in lk:
+                        s_ = set()
+                        for b_ in flatten(I, kv, bty) or []:
+                            if b_.term is not None:
+                                sym_names(b_.term, s_)
+                        ks.append(s_)
+                    others = [j for j in range(len(lk)) if j != i and (ks[j] & used)]
+                    if others or not (ks[i] & used):
+                        chk.violation('K-key-lane', keyK, '%s::%s: output lane %d depends on the round key of lane(s) %s%s (bit-level canonical form)' % (
+                            mod, par_n, i, others, '' if (ks[i] & used) else ' and not on its own'))
+                    else:
+                        chk.ok('K-key-lane', keyK)
                 diff = [j for j, (x, y) in enumerate(zip(sb, ob)) if x.term is None or y.term is None or bitform.recanon(x.term) is not bitform.recanon(y.term)]
                 if diff:
                     chk.violation('P-par-equals-singles', keyP, '%s::%s: lane %d byte %d differs from %s(blocks[%d], round_keys[%d]) (bit-level canonical forms)' % (
@@ -272,6 +312,11 @@ def run(chk, facts_by_config):
                                 sym_names(b.term, used)
                         others = [j for j in range(len(lk)) if j != i and (keysyms[j] & used)]
                         keyK = base + '|K|lane%d' % i
+                        if is_soft:
+                            # the raw term of a bitsliced lane mentions whatever shares its machine words (e.g. round keys
+                            # bitsliced four at a time and masked out again): K is decided in soft_rules on the bit-level
+                            # canonical form instead
+                            continue
                         if ob is None or any(b.term is None for b in ob):
                             chk.violation('K-key-lane', keyK, '%s: output lane %d has no term' % (par_n, i))
                         elif others or not (keysyms[i] & used):
